@@ -103,6 +103,18 @@ Theorem C14_constructors_never_panic : forall (c : ctor) (s : N), construct c <>
 Proof. exact construct_no_panic. Qed.
 Print Assumptions C14_constructors_never_panic.
 
+(** Cross-check with the models of C12 (Padded.v) and C11 (Keys.v), written independently from
+    the same Rust functions: PaddedStringDisplay::fmt panics in one model iff it does in the
+    other, and the tick string selected here is the one C11's model selects. *)
+Theorem C14_models_agree :
+  (forall (s : IndModel.Padded.str) w a tr,
+     is_ok (IndModel.Padded.padded s w a tr)
+     = is_ok (padded_sites (mkmt (IndModel.Padded.blen s) (IndModel.Padded.cols s)) w (conv_align a) tr))
+  /\ (forall ticks idx s, get_tick_str ticks idx = Ok s -> IndModel.Keys.get_tick_str ticks idx = s)
+  /\ (forall ticks s, get_final_tick_str ticks = Ok s -> IndModel.Keys.get_final_tick_str ticks = s).
+Proof. exact models_agree. Qed.
+Print Assumptions C14_models_agree.
+
 (** Non-vacuity. *)
 Definition ex_template : list N :=     (* "{spinner} {bar:10} {wide_bar}\n{msg:3!} {per_sec:9}" *)
   [123;115;112;105;110;110;101;114;125;32;123;98;97;114;58;49;48;125;32;123;119;105;100;101;95;
